@@ -1049,23 +1049,37 @@ class FortranFile:
         curr_line = self.get_line(line_no, pp_content)
         if curr_line is None:
             return [], None, []
+        # Fixed form: a zero in column 6 marks an initial line just like a blank
+        if (
+            self.fixed
+            and curr_line[5:6] == "0"
+            and curr_line[:5].strip(" 0123456789") == ""
+        ):
+            curr_line = curr_line[:5] + " " + curr_line[6:]
         # Search backward for prefix lines
         line_ind = line_no - 1
         pre_lines = []
         if backward:
             if self.fixed:  # Fixed format file
                 tmp_line = curr_line
-                while line_ind > 0:
-                    if FRegex.FIXED_CONT.match(tmp_line):
-                        prev_line = tmp_line
-                        tmp_line = self.get_line(line_ind, pp_content)
-                        if line_ind == line_no - 1:
-                            curr_line = " " * 6 + curr_line[6:]
-                        else:
-                            pre_lines[-1] = " " * 6 + prev_line[6:]
-                        pre_lines.append(tmp_line)
-                    else:
+                first = True
+                while self.fixed_is_cont(tmp_line):
+                    # The line that is continued: comment and blank lines may
+                    # stand between the lines of a statement
+                    while line_ind >= 0 and self.fixed_is_comment(
+                        self.get_line(line_ind, pp_content)
+                    ):
+                        line_ind -= 1
+                    if line_ind < 0:
                         break
+                    # Blank out the continuation mark of the line we come from
+                    if first:
+                        curr_line = " " * 6 + curr_line[6:]
+                        first = False
+                    else:
+                        pre_lines[-1] = " " * 6 + pre_lines[-1][6:]
+                    tmp_line = self.get_line(line_ind, pp_content)
+                    pre_lines.append(self.fixed_strip_comment(tmp_line))
                     line_ind -= 1
             else:  # Free format file
                 opt_cont_match = FRegex.FREE_CONT.match(curr_line)
@@ -1097,15 +1111,24 @@ class FortranFile:
         post_lines = []
         if forward:
             if self.fixed:
-                if line_ind < self.nLines:
+                # Comment and blank lines between the lines of a statement are
+                # skipped (an empty entry keeps the line count right)
+                skipped = []
+                while line_ind < self.nLines:
                     next_line = self.get_line(line_ind, pp_content)
                     line_ind += 1
-                    cont_match = FRegex.FIXED_CONT.match(next_line)
-                    while (cont_match is not None) and (line_ind < self.nLines):
-                        post_lines.append(" " * 6 + next_line[6:])
-                        next_line = self.get_line(line_ind, pp_content)
-                        line_ind += 1
-                        cont_match = FRegex.FIXED_CONT.match(next_line)
+                    if self.fixed_is_comment(next_line):
+                        skipped.append("")
+                    elif self.fixed_is_cont(next_line):
+                        if not post_lines:
+                            curr_line = self.fixed_strip_comment(curr_line)
+                        post_lines += skipped
+                        skipped = []
+                        post_lines.append(
+                            " " * 6 + self.fixed_strip_comment(next_line)[6:]
+                        )
+                    else:
+                        break
             else:
                 line_stripped = strip_strings(curr_line, maintain_len=True)
                 iAmper = line_stripped.find("&")
@@ -1150,11 +1173,46 @@ class FortranFile:
         pre_lines.reverse()
         return pre_lines, curr_line, post_lines
 
+    @staticmethod
+    def fixed_is_comment(line: str | None) -> bool:
+        """Fixed form: a comment line (flag in column 1) or a blank line"""
+        if line is None:
+            return False
+        if line.strip() == "":
+            return True
+        return (
+            FRegex.FIXED_COMMENT.match(line) is not None
+            and FRegex.FIXED_OPENMP.match(line) is None
+        )
+
+    @staticmethod
+    def fixed_is_cont(line: str | None) -> bool:
+        """Fixed form: a continuation line, i.e. columns 1-5 blank and any
+        character other than blank or zero in column 6"""
+        return (
+            line is not None
+            and FRegex.FIXED_CONT.match(line) is not None
+            and line[5] != "0"
+        )
+
+    @staticmethod
+    def fixed_strip_comment(line: str) -> str:
+        """Fixed form: remove a trailing comment, i.e. a "!" outside character
+        literals that is not the continuation mark in column 6"""
+        if "!" not in line:
+            return line
+        stripped = strip_strings(line, maintain_len=True)
+        comm_ind = stripped.find("!")
+        while comm_ind == 5 and stripped[:5] == " " * 5:
+            comm_ind = stripped.find("!", comm_ind + 1)
+        return line if comm_ind < 0 else line[:comm_ind]
+
     def strip_comment(self, line: str) -> str:
         """Strip comment from line"""
         if self.fixed:
             if FRegex.FIXED_COMMENT.match(line) and not FRegex.FIXED_OPENMP.match(line):
                 return ""
+            line = self.fixed_strip_comment(line)
         else:
             if FRegex.FREE_OPENMP.match(line) is None:
                 # A "!" inside a character literal does not start a comment
